@@ -3,7 +3,7 @@ CONSTANTS
   Node <- NodesSmall
   Pool <- PoolWide
   AllowOverwrite = FALSE
-  MaxCalls = 9
+  MaxCalls = 7
   OncePerRecord = FALSE
 INVARIANTS
   TypeOK
